@@ -4,6 +4,7 @@ package main
 
 import (
 	"fmt"
+	"go/token"
 	"go/types"
 	"sort"
 	"strings"
@@ -179,13 +180,24 @@ func engineNT(w *World, tier string) *EngineResult {
 					mark = queryModeMark
 				}
 				key := "NT-lookup|" + fnKey(fn) + "|" + construct
+				premiseGone := ""
 				if why, ok := ntReviewed[key]; ok {
+					if chk, has := ntPremise[key]; has {
+						if good, what := chk(w); !good {
+							premiseGone = " — the reviewed argument for this site no longer applies: " + what
+							ok = false
+						}
+					}
+					if !ok {
+						goto report
+					}
 					r.Reviewed[key] = why
 					r.add(Obligation{Rule: "NT-lookup", Func: fnKey(fn), Construct: construct, Verdict: Holds, Detail: "reviewed exception", Pos: w.pos(instrPos(c)), Reviewed: why})
 					continue
 				}
+			report:
 				r.violated("NT-lookup", fnKey(fn), construct,
-					fmt.Sprintf("when %s finds nothing its nil result is dereferenced at %s: %s%s", cal.Name(), w.pos(d.Pos), derefConstruct(d), mark), w.pos(instrPos(c)))
+					fmt.Sprintf("when %s finds nothing its nil result is dereferenced at %s: %s%s%s", cal.Name(), w.pos(d.Pos), derefConstruct(d), mark, premiseGone), w.pos(instrPos(c)))
 			}
 		}
 	}
@@ -202,6 +214,76 @@ var ntReviewed = map[string]string{
 	"NT-lookup|eval/method_evaluator.evaluateUnionInstanceMethod|lookup checkAndPropagateArgsForUnionWithReturnT#1": "the result is nil only when the list of method entries is empty; the only caller (unionInstanceStrategy.evaluate) returns before the call in that case, and with a non-empty list the first iteration assigns a deep copy of a non-nil entry",
 	"NT-lookup|eval.(*Evaluator).referenceEvaluation|lookup GetConstValueT#1": "a nil constant reaches generalReferenceEvaluation only if the configuration declares a class literally named \"Unknown\" with a [] method (TypeToString(nil) = \"Unknown\"); C01 quantifies over source files under a given configuration and the shipped configurations have no such class",
 	"NT-lookup|eval/method_evaluator.checkAndPropagateArgs|lookup getDefinedArgT#1": "with a nil definedArgT propagationForCalledTo returns true (continue) unless argT has identifier type; then checkArgType returns at its case argT.IsUnknownType() (same test: tType == UNKNOWN) before definedArgT is dereferenced — the two predicates are correlated, which the evaluator cannot see",
+}
+
+// ntPremise: machine-checked premises of reviewed exceptions. A reviewed argument that
+// leans on a guard elsewhere in the code is only as good as that guard; when the premise
+// stops holding the exception is withdrawn and the site is reported.
+var ntPremise = map[string]func(w *World) (bool, string){
+	"NT-lookup|eval/method_evaluator.evaluateUnionInstanceMethod|lookup checkAndPropagateArgsForUnionWithReturnT#1": func(w *World) (bool, string) {
+		// every static caller of evaluateUnionInstanceMethod passes, as class list and entry
+		// list, two results of one call (built in pairs), and the call is dominated by the
+		// false edge of a len(entries) == 0 test of that very value
+		callee := w.FuncByKey("eval/method_evaluator.evaluateUnionInstanceMethod")
+		if callee == nil {
+			return false, "evaluateUnionInstanceMethod not found"
+		}
+		nd := w.CallGraph().Nodes[callee]
+		if nd == nil || len(nd.In) == 0 {
+			return false, "no caller of evaluateUnionInstanceMethod found"
+		}
+		for _, e := range nd.In {
+			if e.Site == nil {
+				continue
+			}
+			args := e.Site.Common().Args
+			var lists []ssa.Value
+			for _, a := range args {
+				if _, ok := a.Type().Underlying().(*types.Slice); ok {
+					lists = append(lists, a)
+				}
+			}
+			if len(lists) < 2 {
+				return false, "caller " + fnKey(e.Caller.Func) + " does not pass two lists"
+			}
+			ex0, ok0 := lists[0].(*ssa.Extract)
+			ex1, ok1 := lists[1].(*ssa.Extract)
+			if !ok0 || !ok1 || ex0.Tuple != ex1.Tuple {
+				return false, "in " + fnKey(e.Caller.Func) + " the class list and the entry list are no longer the two results of one call (one of them is rebuilt before the call)"
+			}
+			guarded := false
+			blk := e.Site.(ssa.Instruction).Block()
+			for cur := blk; cur != nil && cur.Idom() != nil; cur = cur.Idom() {
+				d := cur.Idom()
+				iff, ok := d.Instrs[len(d.Instrs)-1].(*ssa.If)
+				if !ok || len(cur.Preds) != 1 {
+					continue
+				}
+				bo, ok := iff.Cond.(*ssa.BinOp)
+				if !ok {
+					continue
+				}
+				call, ok := bo.X.(*ssa.Call)
+				if !ok {
+					continue
+				}
+				if bi, ok := call.Call.Value.(*ssa.Builtin); !ok || bi.Name() != "len" || (call.Call.Args[0] != lists[0] && call.Call.Args[0] != lists[1]) {
+					continue
+				}
+				k, ok := bo.Y.(*ssa.Const)
+				if !ok || k.Int64() != 0 {
+					continue
+				}
+				if (bo.Op == token.EQL && d.Succs[1] == cur) || ((bo.Op == token.NEQ || bo.Op == token.GTR) && d.Succs[0] == cur) {
+					guarded = true
+				}
+			}
+			if !guarded {
+				return false, "the call in " + fnKey(e.Caller.Func) + " is not dominated by a non-emptiness test of the lists it passes"
+			}
+		}
+		return true, ""
+	},
 }
 
 // mayReturnNil derives the table lookups of module ti that can return nil: functions
